@@ -1027,3 +1027,75 @@ Proof.
   pose proof HH as HH'. apply hyp_ok_iff in HH'. rewrite HH'.
   apply check_iff in HS; [|apply HH]. rewrite HS. reflexivity.
 Qed.
+
+(* ================================================================== *)
+(* 10. corollaries: literal proportionality; W_k > 0 for probabilities *)
+(* ================================================================== *)
+
+(* two splits of the same degree share its mass in proportion to their weights *)
+Lemma split_proportional probs fp lo hi d :
+  HypSplit probs fp lo hi -> create_split probs fp lo hi = Ok d ->
+  forall jd1 v1 jd2 v2, In (jd1, v1) d -> In (jd2, v2) d -> wsum jd1 = wsum jd2 ->
+    (v1 * weight probs jd2 == v2 * weight probs jd1)%Q.
+Proof.
+  intros HH Hc jd1 v1 jd2 v2 H1 H2 Hw.
+  rewrite (split_within _ _ _ _ _ HH Hc _ _ H1), (split_within _ _ _ _ _ HH Hc _ _ H2), Hw.
+  unfold Qdiv. ring.
+Qed.
+
+Lemma qpow_nonneg q n : (0 <= q)%Q -> (0 <= qpow q n)%Q.
+Proof.
+  intros Hq. induction n as [|n IH]; cbn [qpow]; [discriminate|]. apply Qmult_le_0_compat; assumption.
+Qed.
+
+Lemma qpow_pos q n : (0 < q)%Q -> (0 < qpow q n)%Q.
+Proof.
+  intros Hq. induction n as [|n IH]; cbn [qpow]; [reflexivity|]. apply Qmult_lt_0_compat; assumption.
+Qed.
+
+Lemma weight_from_nonneg s probs jd : Forall (fun p => 0 <= p)%Q probs -> (0 <= weight_from s probs jd)%Q.
+Proof.
+  intros Hp. revert s jd. induction Hp as [|p ps Hp0 _ IH]; intros s jd; [cbn; discriminate|].
+  destruct jd as [|x r]; cbn [weight_from]; [discriminate|].
+  apply Qmult_le_0_compat; [apply qpow_nonneg; exact Hp0|apply IH].
+Qed.
+
+Lemma weight_from_zeros s probs n : (weight_from s probs (repeat 0%nat n) == 1)%Q.
+Proof.
+  revert s n. induction probs as [|p ps IH]; intros s n; [reflexivity|].
+  destruct n as [|n]; cbn [repeat weight_from]; [reflexivity|].
+  rewrite Nat.mul_0_r. cbn [qpow]. rewrite IH. ring.
+Qed.
+
+Lemma qsum_nonneg_ge l x : Forall (fun y => 0 <= y)%Q l -> In x l -> (x <= qsum l)%Q.
+Proof.
+  intros Hl. induction Hl as [|y l Hy Hl IH]; intros Hin; [contradiction|]. cbn [qsum].
+  assert (Hs : (0 <= qsum l)%Q).
+  { clear IH Hin. induction Hl as [|z l Hz _ IHl]; cbn [qsum]; [discriminate|].
+    setoid_replace 0%Q with (0 + 0)%Q by ring. apply Qplus_le_compat; assumption. }
+  destruct Hin as [->|Hin].
+  - setoid_replace x with (x + 0)%Q at 1 by ring. apply Qplus_le_compat; [apply Qle_refl|exact Hs].
+  - setoid_replace x with (0 + x)%Q by ring. apply Qplus_le_compat; [exact Hy|apply IH; exact Hin].
+Qed.
+
+(* DESIGN: "W_k <> 0 (true when probs_0 > 0)" for a vector of probabilities *)
+Lemma W_pos p0 ps k :
+  (0 < p0)%Q -> Forall (fun p => 0 <= p)%Q ps -> (0 < W (p0 :: ps) k)%Q.
+Proof.
+  intros Hp0 Hps. unfold W.
+  assert (HT : T (p0 :: ps) <> 0) by (unfold T; cbn; congruence).
+  pose proof (valid_has_pure (T (p0 :: ps)) k HT) as Hin.
+  apply (in_map (weight (p0 :: ps))) in Hin.
+  eapply Qlt_le_trans; [|apply qsum_nonneg_ge; [|exact Hin]].
+  - unfold weight, pure_key. cbn [weight_from]. rewrite weight_from_zeros.
+    setoid_replace (qpow p0 (1 * k) * 1)%Q with (qpow p0 (1 * k)) by ring. apply qpow_pos. exact Hp0.
+  - apply Forall_forall. intros y Hy. apply in_map_iff in Hy. destruct Hy as [jd [<- _]].
+    apply weight_from_nonneg. constructor; [apply Qlt_le_weak; exact Hp0|exact Hps].
+Qed.
+
+Lemma HypSplit_of_probabilities p0 ps fp lo hi :
+  (0 < p0)%Q -> Forall (fun p => 0 <= p)%Q ps -> ~ (F fp lo hi == 0)%Q -> HypSplit (p0 :: ps) fp lo hi.
+Proof.
+  intros Hp0 Hps HF. split; [unfold T; cbn; congruence|]. split; [|exact HF].
+  intros k _ HW. pose proof (W_pos p0 ps k Hp0 Hps) as H. rewrite HW in H. discriminate.
+Qed.
